@@ -61,10 +61,14 @@ class Format:
     def record(self, variant, i):
         raise NotImplementedError
 
-    def render(self, recs, eol=LF, final_newline=True, header=None):
+    interior_comment = None
+
+    def render(self, recs, eol=LF, final_newline=True, header=None, comment_after=()):
         lines = list(self.header if header is None else header)
-        for r in recs:
+        for i, r in enumerate(recs):
             lines.extend(r.lines)
+            if i in comment_after and self.interior_comment is not None:
+                lines.append(self.interior_comment)
         data = eol.join(lines)
         if final_newline and lines:
             data += eol
@@ -258,3 +262,104 @@ class Fastq(_SeqFormat):
 
 FORMATS = {f.name: f for f in [Bed3(), Bed6(), BedGraph(), NarrowPeak(), VcfPlain(), VcfHeader(), Sam(), SamNoTags(),
                                Gtf(), Fasta2(), FastaWrapped(), Fastq()]}
+
+
+# ======================================================================
+# C02 material: more formats and per-column domains
+# ======================================================================
+class Bed12(Delimited):
+    name = 'bed12'
+    buffer = 'bionumpy.io.delimited_buffers:Bed12Buffer'
+    cols = Bed6.cols + [('thick_start', 'int', ['{i}', '1000', '7']),
+                        ('thick_end', 'int', ['5', '2000{i}', '8']),
+                        ('item_rgb', 'str', ['0', '255,0,{i}', '0,0,0']),
+                        ('block_count', 'int', ['1', '2', '3']),
+                        ('block_sizes', 'intlist', ['5', '10,2{i}', '1,2,3']),
+                        ('block_starts', 'intlist', ['0', '0,10{i}', '0,5,9'])]
+
+
+class ChromSizes(Delimited):
+    name = 'chromsizes'
+    buffer = 'bionumpy.io.delimited_buffers:ChromosomeSizeBuffer'
+    cols = [('name', 'str', ['c', 'chr1{i}', 'chrUn_gl0002{i}']),
+            ('size', 'int', ['{i}', '24895642{i}', '7'])]
+
+
+class Gff3(Gtf):
+    """GFF3 with a '##gff-version' header and interior comment lines (DelimitedBufferWithInernalComments)."""
+    name = 'gff3'
+    buffer = 'bionumpy.io.delimited_buffers:GFFBuffer'
+    lazy_capable = True
+    header = (b'##gff-version 3',)
+    cols = Gtf.cols[:-1] + [('atributes', 'str', ['ID=g{i}', 'ID=exon{i};Parent=t{i};Name=some name', 'ID=x;Note=a%2Cb'])]
+    interior_comment = b'###'
+
+
+class Gfa(Delimited):
+    """GFA segment lines: S <name> <sequence>."""
+    name = 'gfa'
+    buffer = 'bionumpy.io.delimited_buffers:GfaSequenceBuffer'
+    cols = [(None, 'str', ['S', 'S', 'S']),
+            ('name', 'id', ['{i}', 'segment{i}', 's']),
+            ('sequence', 'seq', ['A', 'ACGTACGT', 'GGC'])]
+
+
+class Pairs(Delimited):
+    name = 'pairs'
+    buffer = 'bionumpy.io.pairs:PairsBuffer'
+    header = (b'## pairs format v1.0', b'#columns: readID chr1 pos1 chr2 pos2 strand1 strand2')
+    cols = [('read_id', 'str', ['r{i}', 'EAS139:136:FC706VJ:2:2104:23462:{i}', '.']),
+            ('chrom1', 'id', ['c', 'chr1{i}', '2']),
+            ('pos1', 'int', ['{i}', '1234{i}', '1']),
+            ('chrom2', 'id', ['chr2', 'c', 'chrX']),
+            ('pos2', 'int', ['1{i}', '9', '30000{i}']),
+            ('strand1', 'strand', ['+', '-', '+']),
+            ('strand2', 'strand', ['-', '-', '+'])]
+
+
+class Wig(BedGraph):
+    """bedGraph-style wig with interior comment lines."""
+    name = 'wig'
+    buffer = 'bionumpy.io.wig:WigBuffer'
+    interior_comment = b'#bedGraph section'
+
+
+for _f in (Bed12(), ChromSizes(), Gff3(), Gfa(), Pairs(), Wig()):
+    FORMATS[_f.name] = _f
+
+
+_ID = ['c', 'chr10', 'a_much_longer_identifier{i}']
+_COORD = ['0', '7', '10', '12345', '007', '1234567890123']
+_SIGNED = ['0', '7', '-3', '+5', '007', '-12345', '100000']
+_FLOAT = ['0.5', '-2.25', '10', '1e3', '2.5e-3', '0', '-0.0625']
+_STRAND = ['+', '-', '.']
+_STR = ['.', 'x', 'some text {i}']
+
+# per format: column index -> domain (texts).  Columns not listed keep their 3 variant texts.
+DOMAINS = {
+    'bed3': {0: _ID, 1: _COORD, 2: _COORD},
+    'bed6': {0: _ID, 1: _COORD, 2: _COORD, 3: _ID, 4: ['.', '0', '7', '1000', '-3'], 5: _STRAND},
+    'bedgraph': {0: _ID, 1: _COORD, 2: _COORD, 3: _FLOAT},
+    'wig': {0: _ID, 1: _COORD, 2: _COORD, 3: _FLOAT},
+    'narrowpeak': {0: _ID, 1: _COORD, 2: _COORD, 3: _ID, 4: ['.', '0', '7', '1000'], 5: _STRAND, 6: _FLOAT, 7: _FLOAT,
+                   8: _FLOAT, 9: _SIGNED},
+    'bed12': {0: _ID, 1: _COORD, 2: _COORD, 3: _ID, 5: _STRAND, 6: _COORD, 7: _COORD, 8: ['0', '255,0,0', '1,22,333'],
+              9: ['1', '2', '10'], 10: ['5', '10,20', '10,20,', '1,2,3', '7,'], 11: ['0', '0,10', '0,10,', '0,5,9', '3,']},
+    'chromsizes': {0: _ID, 1: _COORD},
+    'vcf': {0: _ID, 1: ['1', '7', '10', '12345', '1234567890'], 2: ['.', 'rs1', 'rs123456;x'], 3: ['A', 'ACGT', 'N'],
+            4: ['T', 'G,GT', '<DEL>', '.'], 5: ['.', '40', '29.5'], 6: ['PASS', '.', 'q10;s50'],
+            7: ['.', 'DP=1', 'NS=3;DP=14;AF=0.5;DB;H2']},
+    'sam': {0: _ID, 1: ['0', '16', '99', '4095'], 2: ['chr1', '*', 'c'], 3: _COORD, 4: ['0', '60', '255'],
+            5: ['*', '1M', '10M2I5D3M', '3S5M'], 6: ['*', '=', 'chr2'], 7: _COORD, 8: _SIGNED,
+            9: ['*', 'A', 'ACGTNACGT'], 10: ['*', '!', '~', 'II#I!~5;@'],
+            11: ['NM:i:0', 'NM:i:1\tMD:Z:5A3\tXS:A:+', 'RG:Z:grp 1']},
+    'sam_notags': {0: _ID, 1: ['0', '16', '99', '4095'], 3: _COORD, 8: _SIGNED},
+    'gtf': {0: _ID, 1: _STR[1:] + ['HAVANA'], 2: ['gene', 'exon', 'five_prime_UTR'], 3: _COORD, 4: _COORD,
+            5: ['.', '0.5', '1000'], 6: _STRAND, 7: ['.', '0', '1', '2'],
+            8: ['gene_id "g";', 'gene_id "ENSG01"; transcript_id "ENST01"; exon_number "1";', 'a "b c"; d "e";']},
+    'gff3': {0: _ID, 3: _COORD, 4: _COORD, 6: _STRAND, 7: ['.', '0', '1', '2'],
+             8: ['ID=g', 'ID=exon1;Parent=t1;Name=some name', '.']},
+    'gfa': {1: _ID, 2: ['A', 'ACGTACGT', 'N', 'acgt']},
+    'pairs': {0: ['.', 'r', 'EAS139:136:FC706VJ:2:2104:23462:1'], 1: _ID, 2: _COORD, 3: _ID, 4: _COORD, 5: ['+', '-'],
+              6: ['+', '-']},
+}
